@@ -214,7 +214,7 @@ Proof.
     unfold releaseMem. rewrite su, shm.
     destruct (0 <? mem (hard c2)); [destruct (a <=? mem (used c2))|];
       eexists; (split; [reflexivity|]); (split; [|cbn; rewrite ?su; auto]);
-      apply Hfin; auto; constructor; cbn; auto; rewrite ?su; reflexivity.
+      apply Hfin; auto; constructor; cbn; auto; rewrite ?su; try reflexivity; congruence.
 Qed.
 
 (* ---------- PushContext on related stacks ---------- *)
